@@ -24,7 +24,9 @@ R = Rules(
         "_active_exchanges where a Reset fires it, dispatch_error and shutdown call the stored stoppers, "
         "loss of interest reaches task.cancel through error_to_message and run_driving_pipe, and "
         "ServerObservation.trigger / the loop form a lossy latest-value hand-over without an await between "
-        "reading and re-arming.  Paper step: with these premises the Observe values of one registration are "
+        "reading and re-arming; the message layer is order-preserving per remote (FIFO backlog, no confirmable "
+        "message overtakes it, the released item is the dequeued head: C14.b/c/d called as C08.i), so the order on "
+        "the wire is the order of submission.  Paper step: with these premises the Observe values of one registration are "
         "strictly increasing, every exit of the render task runs the callback once, and each listed "
         "termination cause cancels the task.  Eventual transmission under every schedule is not decided."
     ),
@@ -1646,6 +1648,34 @@ def h_shared(ctx):
     c14.a(ctx)
 
 
+@R.clause("C08.i", "notifications leave the message layer in the order in which they were handed to it: the per-remote backlog is a FIFO queue, no confirmable message overtakes it, what is released is its head, a non-empty queue is never dropped silently (shared with C14.c / C14.b / C14.d)")
+def i_shared(ctx):
+    """C08.a only shows that the Observe values are increasing in the order in which _render_to_pipe hands the
+    notifications to pipe.add_response, i.e. in the order in which they reach MessageManager.send_message.  'Strictly
+    increasing Observe values within one registration' is a statement about the wire, so it additionally needs the
+    message layer to be order-preserving per remote.  All notifications of one registration go to one remote; while
+    a CON notification of that remote is unacknowledged, later CON notifications wait in `_backlogs[remote]`.  The
+    order on the wire equals the order of submission only if
+      * the queue is drained from the end opposite to the one it is filled at (C14.c) -- an independently written
+        breaking change drained it with pop() (LIFO): Observe values 0, 1, 3, 2 on the wire and a stale state last;
+      * a CON whose remote has an open exchange never bypasses the queue, and every message is either transmitted
+        or queued (C14.b) -- a bypassing notification overtakes the queued ones, a dropped one is never sent;
+      * what _continue_backlog releases is the item it dequeued, from the remote's own queue, and an entry is
+        deleted only when empty (C14.d) -- otherwise the latest notification is lost or repeated.
+    These are the message layer's own clauses (decided by effect over every enqueue / dequeue spelling in C14's
+    kit); they are called here, not restated.  Each part is run even when an earlier one refuses, so that a refusal
+    of one part cannot hide a violation found by another."""
+    from . import c14
+    refused = []
+    for part in ("c", "b", "d"):
+        try:
+            getattr(c14, part)(ctx)
+        except AnalysisError as e_:
+            refused.append("C14.%s: %s" % (part, e_))
+    if refused:
+        raise AnalysisError("; ".join(refused))
+
+
 F_IF = "aiocoap/interfaces.py"
 F_RES = "aiocoap/resource.py"
 F_PROTO = "aiocoap/protocol.py"
@@ -1718,3 +1748,11 @@ R.seed("C08.f", F_IF, "                response = servobs._trigger.result()\n   
 R.seed("C08.c", F_RES, "        def _cancel(self=self, obs=serverobservation):\n            self._observations.remove(serverobservation)", "        def _cancel(self=self, obs=serverobservation):\n            self._observations.remove(request)", "callback removes another object")
 
 R.seed("C08.h", F_MM, "        messageerror_monitor, next_retransmission = self._active_exchanges.pop(key)\n        # this should be a no-op", "        messageerror_monitor, next_retransmission = self._active_exchanges[key]\n        # this should be a no-op", "timed-out exchange stays 'active': later CON notifications to that endpoint are queued for ever")
+
+R.seed("C08.i", F_MM, "self._backlogs[remote].pop(0)", "self._backlogs[remote].pop()", "held-back CON notifications leave newest-first: Observe values on the wire not increasing")
+R.seed("C08.i", F_MM, "self._backlogs[remote].pop(0)", "self._backlogs[remote].pop(-1)", "LIFO through an explicit last index")
+R.seed("C08.i", F_MM, "            self._backlogs[message.remote].append((message, messageerror_monitor))", "            self._backlogs[message.remote].insert(0, (message, messageerror_monitor))", "enqueue at the head: a later notification is released before an earlier one")
+R.seed("C08.i", F_MM, "        if message.mtype == CON and message.remote in self._backlogs:", "        if message.mtype == CON and message.remote in self._backlogs and message.opt.observe is None:", "notifications bypass the queue and overtake held-back ones")
+R.seed("C08.i", F_MM, "        if message.mtype == CON and message.remote in self._backlogs:", "        if message.mtype == CON and self._backlogs.get(message.remote):", "a CON is transmitted at once although an exchange with the remote is open (empty entry)")
+R.seed("C08.i", F_MM, "            if self._backlogs[remote] != []:\n                next_message", "            if len(self._backlogs[remote]) > 1:\n                next_message", "the entry is deleted while it still holds the latest notification: never sent")
+R.seed("C08.i", F_MM, "                next_message, messageerror_monitor = self._backlogs[remote].pop(0)\n", "                next_message, messageerror_monitor = self._backlogs[remote][-1]\n                del self._backlogs[remote][0]\n", "the newest item is transmitted while the oldest is discarded")
